@@ -67,6 +67,19 @@ def foreign_element(r, x, name_class):
         x.open("fx:cartesianBounds", [("type", "Structure")])
         x.leaf("fx:xMinimum", [("type", "Float")], "-1")
         x.close("fx:cartesianBounds")
+        # whole top-level vectors nested inside the foreign structure (same foreign namespace as their parent)
+        for top in ("fx:data3D", "fx:images2D"):
+            if r.random() < 0.6:
+                x.open(top, [("type", "Vector"), ("allowHeterogeneousChildren", 1)])
+                x.open("fx:vectorChild", [("type", "Structure")])
+                x.leaf("fx:guid", [("type", "String")], "foreign-child")
+                x.open("fx:visualReferenceRepresentation", [("type", "Structure")])
+                x.leaf("fx:jpegImage", [("type", "Blob"), ("fileOffset", 48), ("length", 1)], "")
+                x.leaf("fx:imageWidth", [("type", "Integer")], "1")
+                x.leaf("fx:imageHeight", [("type", "Integer")], "1")
+                x.close("fx:visualReferenceRepresentation")
+                x.close("fx:vectorChild")
+                x.close(top)
         x.close(tag)
     else:
         x.open(tag, [("type", "Structure")])
@@ -170,3 +183,65 @@ def diff(a, b, path=""):
                 return d
         return None
     return None if a == b else (path, a, b)
+
+
+# ---------------------------------------------------------------------------------------------
+# extension attributes inside a prototype: the prefix may be declared on the root (as the crate's
+# writer does) or locally on any ancestor-or-self of the record; the reported prototype must not depend on it
+
+DECL_SITES = ["root", "vectorChild", "points", "prototype", "record"]
+
+
+def make_decl_pair(seed, i):
+    """baseline: extension prefixes declared on the root; variant: one prefix declared at another site"""
+    import re
+    s, r = sc.gen_scene(seed * 7000003 + i, max_points=20, max_pcs=2, images=False)
+    if not s["extensions"]:
+        s["extensions"] = [("ext", "http://example.org/ext/%d" % i)]
+    prefix, url = s["extensions"][0]
+    # make sure an extension attribute exists, half of the time named like a standard one
+    pc = s["pointclouds"][0]
+    nm = r.choice(["intensity", "cartesianX", "rowIndex", "nor_x", "amplitude"])
+    if not any(x["ns"] == prefix for x in pc["prototype"]):
+        rec = dict(sc.gen_type(r, "any"))
+        rec["ns"], rec["name"] = prefix, nm
+        pc["prototype"].append(rec)
+        pc["points"] = [p + "," + sc.gen_value(r, rec) if p else sc.gen_value(r, rec) for p in pc["points"]]
+    lay = encode.gen_layout(r, False)
+    state = r.getstate()
+    base_img, _ = encode.encode(s, r, lay)
+    site = random.Random(seed * 31 + i).choice(DECL_SITES[1:])
+    r.setstate(state)
+    # variant: build the XML with the prefix removed from the root and declared at `site` of the first point cloud
+    s2 = dict(s)
+    s2["extensions"] = [e for e in s["extensions"] if e[0] != prefix]
+    decl = ("xmlns:" + prefix, url)
+    state_count = {"vc": 0, "points": 0, "proto": 0}
+
+    def attrs(items):
+        return items
+
+    hooks = {"decl_site": (site, decl, prefix)}
+    var_img, _ = encode.encode(s2, r, lay, hooks)
+    return base_img, var_img, {"site": site, "prefix": prefix, "attr_names": [x["name"] for x in pc["prototype"] if x["ns"] == prefix]}
+
+
+def _one_decl(args):
+    outdir, seed, i = args
+    b, v, info = make_decl_pair(seed, i)
+    pb = os.path.join(outdir, "d%06d_base.e57" % i)
+    pv = os.path.join(outdir, "d%06d_var.e57" % i)
+    open(pb, "wb").write(b)
+    open(pv, "wb").write(v)
+    return {"i": i, "base": pb, "var": pv, "insertions": [{"site": "namespace-declared-on:" + info["site"], "name_class": "extension-attribute", "name": ",".join(info["attr_names"]), "kind": "declaration-site", "form": "local-prefix"}]}
+
+
+def produce_decl(outdir, seed, n):
+    os.makedirs(outdir, exist_ok=True)
+    with multiprocessing.Pool(min(16, os.cpu_count() or 4)) as pool:
+        metas = pool.map(_one_decl, [(outdir, seed, i) for i in range(n)], chunksize=8)
+    lst = os.path.join(outdir, "files.txt")
+    with open(lst, "w") as f:
+        for m in metas:
+            f.write(m["base"] + "\n" + m["var"] + "\n")
+    return lst, metas
